@@ -194,6 +194,13 @@ def documented_refusal(case, gen, ops_text: List[str], cfg) -> Optional[str]:
     return None
 
 
+def strict_scalar_names(case, schema_ref) -> List[str]:
+    from graphql import GraphQLScalarType
+    if not case.get("strict_scalars"):
+        return []
+    return sorted(n for n, t in schema_ref.type_map.items() if isinstance(t, GraphQLScalarType) and n not in oracles.BUILTIN)
+
+
 def has_inline_fragment_on_interface(case, queries: str) -> bool:
     import re
     sdl = case.get("_sdl") or ""
@@ -249,8 +256,17 @@ def worker(case: Dict[str, Any]) -> CaseResult:
     use_tracer = cfg_full.pop("_tracer", False)
     queries = "\n\n".join(frs + ops)
     authored = parse(queries)
+    extra_files = dict(case.get("extra_files") or {})
+    strict = strict_scalar_names(case, schema_ref)
+    if strict:
+        # every custom scalar configured as str + a parse function that is the identity on values and refuses None: values, round trip and
+        # annotations stay comparable, and a parse call for null (which the statement forbids) turns a conformant response into a rejection
+        extra_files["vf_csm.py"] = "def parse_strict(value):\n    if value is None:\n        raise ValueError('parse called with None')\n    return value\n"
+        cfg_full["scalars"] = {n: {"type": "str", "parse": ".vf_csm.parse_strict"} for n in strict}
+        cfg_full["files_to_include"] = list(cfg_full.get("files_to_include", [])) + ["vf_csm.py"]
+        feats = list(feats) + ["scalar.config.strict_parse"]
     with core.Scratch() as root:
-        cfg = write_case(root, sdl, queries, cfg_full, extra_files=case.get("extra_files"))
+        cfg = write_case(root, sdl, queries, cfg_full, extra_files=extra_files or None)
         with warnings.catch_warnings():
             warnings.simplefilter("ignore")
             # every 6th C04 case invokes the command the way the README shows it first: without a strategy argument
@@ -481,7 +497,8 @@ def c05_checks(case, replay_case, feats, value, data, world, rpaths, schema_ref,
     from pydantic import ValidationError
 
     model_cls = type(value)
-    custom_any = {n for n, t in schema_ref.type_map.items() if isinstance(t, GraphQLScalarType) and n not in oracles.BUILTIN}
+    strict = strict_scalar_names(case, schema_ref)
+    custom_any = {n for n, t in schema_ref.type_map.items() if isinstance(t, GraphQLScalarType) and n not in oracles.BUILTIN and n not in strict}
     static_types = oracles.static_field_types(authored_doc, opnode, schema_ref) if authored_doc is not None else None
     near = set()
     if authored_doc is not None:
@@ -577,7 +594,7 @@ def c05_checks(case, replay_case, feats, value, data, world, rpaths, schema_ref,
                     except BaseException as e:  # noqa: BLE001
                         ann = type(obj).model_fields[fname].annotation
                     count("c05.annotations_checked")
-                    miss = oracles.match_annotation(ann, t, conditional, enums_mod, {}, "%s.%s" % (type(obj).__name__, fname), schema_ref)
+                    miss = oracles.match_annotation(ann, t, conditional, enums_mod, {n: str for n in strict}, "%s.%s" % (type(obj).__name__, fname), schema_ref)
                     if miss and miss.startswith("typename-literal-foreign-type"):
                         violations.append(Violation("C05", "typename-literal-foreign-type", "%s: %s" % (op_name, miss), feats, replay_case, mech="c05:typename-literal-foreign-type"))
                     elif miss:
@@ -615,6 +632,9 @@ def run_shared(prop: str, tier: str, seed: int, n_cases: int, rule: str, floors:
         kw["props"] = [prop]
         kw["tier"] = tier
         c = make_case(seed, i, dirty=(dirty_sets[i % len(dirty_sets)] if dirty_sets else []), **kw)
+        if prop in ("C01", "C05") and i % 5 == 2:
+            c["strict_scalars"] = True
+            c["dirty"] = sorted(set(c["dirty"]) | {"schema.force_scalar"})
         if case_hook:
             case_hook(c, i)
         cases.append(c)
